@@ -65,6 +65,19 @@ def post(prog, r, tier, prof):
                 ops.append({"s": s0, "op": "select", "mbox": prof["mailboxes"][0], "examine": False})
                 ops.append({"s": s0, "op": "store", "uid": False, "set": {"all": True}, "how": "+", "flags": ["\\Deleted"], "silent": True})
                 ops.append({"actor": "life", "op": "restart", "kind": "cancel", "at_event": r.choice((1, 2, 3, 4, 6, 9)), "drop_after": r.choice((0.0, 0.001, 0.02)), "inflight": {"s": s0, "op": "expunge"}})
+    if r.random() < 0.12 and prog.get("sessions"):
+        # a SPECIAL-USE name that is deleted and then taken again (CREATE, or RENAME of another mailbox): what LIST says
+        # about it must not depend on how many restarts lie behind
+        s0 = prog["sessions"][0]["id"]
+        su = r.choice(("Drafts", "Junk", "Archive", "Sent Messages"))
+        ops.append({"s": s0, "op": "delete", "name": su})
+        if r.random() < 0.6:
+            ops.append({"s": s0, "op": "create", "name": "tmpbox"})
+            ops.append({"s": s0, "op": "rename", "name": "tmpbox", "to": su})
+        else:
+            ops.append({"s": s0, "op": "create", "name": su})
+        ops.append({"actor": "life", "op": "restart", "kind": r.choice(("cancel", "expire"))})
+        ops.append({"actor": "life", "op": "restart", "kind": "cancel"})
     if not any(op.get("op") == "restart" for op in ops):
         ops.insert(r.randint(0, len(ops)), {"actor": "life", "op": "restart", "kind": r.choice(("cancel", "expire"))})
     prog["ops"] = ops
